@@ -28,6 +28,15 @@ def ns_history(ctx):
         if rng.random() < 0.25:
             nm = nm.swapcase()
         f = gen.fold(flav, nm)
+        files = sorted(v[0] for v in d.values() if v[1] == "file")
+        if files and rng.random() < 0.06:
+            # a path that leads through a file (an empty file's block table looks like an empty hash table): every call must be refused
+            bad = ps(p + (rng.choice(files),))
+            L.append(rng.choice(["mkdir %s %s" % (bad, hexs(nm)), "open 0 %s %s w" % (bad, hexs(nm)), "lookup %s %s" % (bad, hexs(nm)), "list %s 0 0" % bad,
+                                 "rm %s %s" % (bad, hexs(nm)), "mv %s %s %s %s" % (ps(p), hexs(rng.choice(files)), bad, hexs(nm))]))
+            if L[-1].startswith("open"):
+                L.append("close 0")
+            continue
         if r < 0.22:
             L.append("mkdir %s %s" % (ps(p), hexs(nm)))
             if f not in d and len(p) < 3:
